@@ -141,6 +141,9 @@ func checkC12(c *Ctx, r *Report, tier string) {
 	proposerOwnsStructuredFields(c, r, "C12.R5")
 	r.Rule("C12.R6", "no request wedges the server on a mutex: no lock-order cycle between mutex fields, no re-acquisition of a mutex that a caller on the same object may already hold", 2)
 	lockOrderRule(c, r, "C12.R6", newLockWorld(c), nil)
+	r.Rule("C12.R7", "no request makes a goroutine spin or the runtime abort: running minima in the index move only on strict improvement (greedy descent terminates on ties); the metadata map of a stored vertex is never written in place (a concurrent stream.Send of a search result reads it: `concurrent map read and map write` is fatal)", 3)
+	strictImprovementOnly(c, r, "C12.R7")
+	publishedVertexWrites(c, r, "C12.R7")
 	ro := discoverRoles(c)
 	var roots []*ssa.Function
 	for _, f := range ro.rpcRoots {
@@ -184,7 +187,7 @@ func checkC12(c *Ctx, r *Report, tier string) {
 	batchGuarded := func(f *ssa.Function) bool {
 		var g *ssa.Call
 		eachInstr(f, func(i ssa.Instruction) {
-			if cl, ok := i.(*ssa.Call); ok && guards[cl.Call.StaticCallee()] {
+			if cl, ok := i.(*ssa.Call); ok && guards[cl.Call.StaticCallee()] && !guardDisabledAt(cl, guards) {
 				g = cl
 			}
 		})
@@ -222,7 +225,7 @@ func checkC12(c *Ctx, r *Report, tier string) {
 		}
 		eachInstr(f, func(i ssa.Instruction) {
 			cl, ok := i.(*ssa.Call)
-			if !ok || !guards[cl.Call.StaticCallee()] {
+			if !ok || !guards[cl.Call.StaticCallee()] || guardDisabledAt(cl, guards) {
 				return
 			}
 			if ifi, errPol := errTestOf(f, cl); ifi != nil && guardedBy(site.Block(), ifi, !errPol) {
